@@ -346,3 +346,154 @@ Theorem C05_flag_bits_match :
   flag_bit_ok "UTXOAfterGenesis" F_GENESIS && flag_bit_ok "VerifyMinimalIf" F_MINIMALIF)%bool = true.
 Proof. exact flag_bits_match. Qed.
 Print Assumptions C05_flag_bits_match.
+
+(** ** The operation count (audit B, clause 3: was OPEN)
+    thread.executeOpcode counts every opcode above OP_16, executed or skipped, and fails when the count exceeds
+    MaxOps; OP_CHECKMULTISIG adds the number of public keys under the same test; shiftScript resets the count. *)
+From GoBT Require Import model.Debug proofs.OpCount proofs.AuditB_C05b proofs.RunInvariant proofs.SnapshotChain.
+
+(** at EVERY state of a whole run -- the states current at all debugger callbacks of [engine_execute], from BeforeExecute
+    to AfterSuccess / AfterError, all scripts, across script changes ([engine_states]; its AfterStep states are the ones
+    the snapshots of [engine_execute] are taken of: [C05_whole_run_states_cover_snapshots]) -- the count is within the
+    limit, for any signature operations that count what they add *)
+Theorem C05_op_count_bounded_at_every_step : forall so i, sigops_counted so ->
+  Forall (fun es => (nops (snd es) <= max_ops (engine_ctx i))%Z) (engine_states so i).
+Proof. exact op_count_bounded_whole_run. Qed.
+Print Assumptions C05_op_count_bounded_at_every_step.
+(** without signature operations, and with the real ones (no condition on the oracle or the transaction) *)
+Theorem C05_op_count_bounded_at_every_step_plain : forall i,
+  Forall (fun es => (nops (snd es) <= max_ops (engine_ctx i))%Z) (engine_states no_sigops i).
+Proof. exact op_count_bounded_whole_run_plain. Qed.
+Print Assumptions C05_op_count_bounded_at_every_step_plain.
+Theorem C05_op_count_bounded_at_every_step_signatures : forall orc t n i,
+  Forall (fun es => (nops (snd es) <= max_ops (engine_ctx i))%Z) (engine_states (mk_sigops orc t n) i).
+Proof. exact op_count_bounded_whole_run_mk. Qed.
+Print Assumptions C05_op_count_bounded_at_every_step_signatures.
+(** the real signature operations count what they add: OP_CHECKSIG nothing, OP_CHECKMULTISIG the number of keys, checked *)
+Theorem C05_signature_opcodes_are_counted : forall orc t i, sigops_counted (mk_sigops orc t i).
+Proof. exact mk_sigops_counted. Qed.
+Print Assumptions C05_signature_opcodes_are_counted.
+(** the trace the statement is about is the run: its AfterStep states are those of the snapshots of [engine_execute] *)
+Theorem C05_whole_run_states_cover_snapshots : forall so i,
+  map snap (as_states (engine_states so i)) = snd (engine_execute so i).
+Proof. exact engine_states_cover_snapshots. Qed.
+Print Assumptions C05_whole_run_states_cover_snapshots.
+(** one instruction: pushes (up to OP_16) are free, every other opcode costs at least one, and the limit is kept *)
+Theorem C05_op_count_one_instruction : forall so c p idx s s', sigops_counted so -> (nops s <= max_ops c)%Z ->
+  (execute_opcode so c p idx s = OOk s' \/ execute_opcode so c p idx s = OReturn s') ->
+  (nops s + (if (OP_16 <? p_val p)%N then 1 else 0) <= nops s' <= max_ops c)%Z.
+Proof. exact execute_opcode_counts. Qed.
+Print Assumptions C05_op_count_one_instruction.
+(** along one script ([run_ops]): every state the script goes through, the last one included *)
+Theorem C05_op_count_along_a_script : forall so c, sigops_counted so -> forall ops idx s,
+  (nops s <= max_ops c)%Z -> Forall (fun s' => (nops s <= nops s' <= max_ops c)%Z) (run_states so c ops idx s).
+Proof. exact run_states_counted. Qed.
+Print Assumptions C05_op_count_along_a_script.
+Theorem C05_run_states_is_the_run : forall so c ops idx s acc,
+  match fst (run_ops so c ops idx s acc) with
+  | SEnd s' | SReturn s' => s' = last (run_states so c ops idx s) s
+  | SErr | SPanic => True
+  end /\
+  exists l, snd (run_ops so c ops idx s acc) = (rev (map snap l) ++ acc)%list /\ incl l (run_states so c ops idx s).
+Proof. exact run_states_is_the_run. Qed.
+Print Assumptions C05_run_states_is_the_run.
+(** non-vacuity: before Genesis 500 OP_NOPs pass and the 501st fails; 600 pushes do not count; after Genesis 501 OP_NOPs pass *)
+Example C05_op_count_examples :
+  fst (engine_execute no_sigops (mkExecInput [x51] (repeat_byte 500 x61) 0 false false 0 0 0)) = VOk /\
+  fst (engine_execute no_sigops (mkExecInput [x51] (repeat_byte 501 x61) 0 false false 0 0 0)) = VErr /\
+  fst (engine_execute no_sigops (mkExecInput [x51] (repeat_byte 600 x51) 0 false false 0 0 0)) = VOk /\
+  fst (engine_execute no_sigops (mkExecInput [x51] (repeat_byte 501 x61) 16384 false false 0 0 0)) = VOk.
+Proof. vm_compute. repeat split; reflexivity. Qed.
+
+(** ** A single OP_ELSE per conditional after Genesis (audit B, clause 4: was OPEN)
+    opcodeIf / opcodeNotIf push a cleared flag on the else stack, opcodeElse pops it, fails if it was set and pushes it
+    set.  Before Genesis the else stack is a no-op stack and OP_ELSE toggles the branch any number of times. *)
+Theorem C05_second_else_is_an_error : forall so c p idx s er,
+  after_genesis c = true -> p_real p = true -> p_val p = OP_ELSE -> els s = true :: er ->
+  execute_opcode so c p idx s = OErr.
+Proof. exact second_else_is_an_error. Qed.
+Print Assumptions C05_second_else_is_an_error.
+Theorem C05_first_else_sets_the_flag : forall so c p idx s s',
+  after_genesis c = true -> p_real p = true -> p_val p = OP_ELSE ->
+  execute_opcode so c p idx s = OOk s' ->
+  exists t cr er, cond s = t :: cr /\ els s = false :: er /\ cond s' = toggle t :: cr /\ els s' = true :: er.
+Proof. exact first_else_sets_the_flag. Qed.
+Print Assumptions C05_first_else_sets_the_flag.
+Theorem C05_else_else_is_an_error : forall so c p q idx idx' s s',
+  after_genesis c = true -> p_real p = true -> p_val p = OP_ELSE -> p_real q = true -> p_val q = OP_ELSE ->
+  execute_opcode so c p idx s = OOk s' -> execute_opcode so c q idx' s' = OErr.
+Proof. exact else_else_is_an_error. Qed.
+Print Assumptions C05_else_else_is_an_error.
+Theorem C05_if_clears_the_flag : forall so c p idx s s',
+  after_genesis c = true -> p_real p = true -> (p_val p = OP_IF \/ p_val p = OP_NOTIF) ->
+  exec_handler so c p idx s = OOk s' -> exists er, els s' = false :: er.
+Proof. exact if_clears_the_flag. Qed.
+Print Assumptions C05_if_clears_the_flag.
+Theorem C05_else_toggles_before_genesis : forall so c p idx s t cr,
+  after_genesis c = false -> p_real p = true -> p_val p = OP_ELSE -> cond s = t :: cr ->
+  exec_handler so c p idx s = OOk (set_cond s (toggle t :: cr) (els s)).
+Proof. exact else_toggles_before_genesis. Qed.
+Print Assumptions C05_else_toggles_before_genesis.
+Theorem C05_else_else_before_genesis : forall so c p q idx idx' s t cr s',
+  after_genesis c = false -> p_real p = true -> p_val p = OP_ELSE -> p_real q = true -> p_val q = OP_ELSE ->
+  cond s = t :: cr -> exec_handler so c p idx s = OOk s' ->
+  exists s'', exec_handler so c q idx' s' = OOk s'' /\ cond s'' = cond s /\ els s'' = els s.
+Proof. exact else_else_before_genesis. Qed.
+Print Assumptions C05_else_else_before_genesis.
+(** the else-stack invariant: as deep as the condition stack after Genesis, empty before -- along one script ... *)
+Theorem C05_else_stack_invariant_run : forall so c, sigops_ok so -> sigops_els_ok so ->
+  forall ops idx s acc, els_inv c s ->
+  match fst (run_ops so c ops idx s acc) with
+  | SEnd s' | SReturn s' => els_inv c s'
+  | SErr | SPanic => True
+  end.
+Proof. exact run_ops_inv. Qed.
+Print Assumptions C05_else_stack_invariant_run.
+(** ... and at every state of a whole run *)
+Theorem C05_else_stack_invariant_at_every_step : forall so i, sigops_ok so -> sigops_els_ok so ->
+  Forall (fun es => els_inv (engine_ctx i) (snd es)) (engine_states so i).
+Proof. exact else_stack_invariant_whole_run. Qed.
+Print Assumptions C05_else_stack_invariant_at_every_step.
+Theorem C05_else_stack_invariant_at_every_step_plain : forall i,
+  Forall (fun es => els_inv (engine_ctx i) (snd es)) (engine_states no_sigops i).
+Proof. exact else_stack_invariant_whole_run_plain. Qed.
+Print Assumptions C05_else_stack_invariant_at_every_step_plain.
+Theorem C05_else_stack_invariant_at_every_step_signatures : forall orc t n i, tx_ctx_ok t n ->
+  Forall (fun es => els_inv (engine_ctx i) (snd es)) (engine_states (mk_sigops orc t n) i).
+Proof. exact else_stack_invariant_whole_run_mk. Qed.
+Print Assumptions C05_else_stack_invariant_at_every_step_signatures.
+(** OP_1 | OP_1 OP_IF OP_1 OP_ELSE OP_1 OP_ELSE OP_1 OP_ENDIF: accepted before Genesis, refused after *)
+Example C05_single_else_examples :
+  fst (engine_execute no_sigops (mkExecInput [x51] [x51; x63; x51; x67; x51; x67; x51; x68] 0 false false 0 0 0)) = VOk /\
+  fst (engine_execute no_sigops (mkExecInput [x51] [x51; x63; x51; x67; x51; x67; x51; x68] 16384 false false 0 0 0)) = VErr /\
+  fst (engine_execute no_sigops (mkExecInput [x51] [x51; x63; x51; x67; x51; x68] 16384 false false 0 0 0)) = VOk.
+Proof. vm_compute. repeat split; reflexivity. Qed.
+
+(** ** Minimal push (audit B, clause 5a: was OPEN): ParsedOpcode.enforceMinimumDataPush against the shortest-form rule
+    of BIP62 written independently ([shortest_push_opcode]: empty -> OP_0; one byte 1..16 -> OP_1..OP_16; 0x81 ->
+    OP_1NEGATE; up to 75 bytes -> the direct push of that length; up to 255 -> OP_PUSHDATA1; up to 65535 ->
+    OP_PUSHDATA2; more -> OP_PUSHDATA4).  Above 65535 bytes the check accepts any opcode. *)
+Theorem C05_minimal_push_iff : forall p,
+  minimal_push_ok p = true <->
+  (65535 < N.of_nat (List.length (p_data p)))%N \/ p_val p = shortest_push_opcode (p_data p).
+Proof. exact minimal_push_ok_iff. Qed.
+Print Assumptions C05_minimal_push_iff.
+(** the check is applied to OP_0 .. OP_PUSHDATA4 only; for those a single byte 1..16 or 0x81 is never minimal *)
+Theorem C05_small_number_pushed_as_data_is_not_minimal : forall p x,
+  (p_val p <= OP_PUSHDATA4)%N -> p_data p = [x] ->
+  ((1 <= b2n x <= 16)%N \/ b2n x = 129%N) -> minimal_push_ok p = false.
+Proof. exact small_number_pushed_as_data_is_not_minimal. Qed.
+Print Assumptions C05_small_number_pushed_as_data_is_not_minimal.
+Theorem C05_minimal_push_unique : forall p q, p_data p = p_data q ->
+  (N.of_nat (List.length (p_data p)) <= 65535)%N ->
+  minimal_push_ok p = true -> minimal_push_ok q = true -> p_val p = p_val q.
+Proof. exact minimal_push_unique. Qed.
+Print Assumptions C05_minimal_push_unique.
+(** with VerifyMinimalData: PUSHDATA1 of one byte refused, the direct push accepted, 0x05 as data refused, OP_5 accepted *)
+Example C05_minimal_push_examples :
+  fst (engine_execute no_sigops (mkExecInput [x4c; x01; x20] [x01; x20; x87] 256 false false 0 0 0)) = VErr /\
+  fst (engine_execute no_sigops (mkExecInput [x01; x20] [x01; x20; x87] 256 false false 0 0 0)) = VOk /\
+  fst (engine_execute no_sigops (mkExecInput [x01; x05] [x55; x87] 256 false false 0 0 0)) = VErr /\
+  fst (engine_execute no_sigops (mkExecInput [x55] [x55; x87] 256 false false 0 0 0)) = VOk /\
+  fst (engine_execute no_sigops (mkExecInput [x01; x05] [x55; x87] 0 false false 0 0 0)) = VOk.
+Proof. vm_compute. repeat split; reflexivity. Qed.
